@@ -126,6 +126,40 @@ let lit_main () =
     | _ -> failwith ("bad line: " ^ line)
   done with End_of_file -> ())
 
+(* ---------------- integer expressions (C01 / C07) ---------------- *)
+let z_of_string (s : string) : z =
+  if String.length s > 0 && s.[0] = '-' then
+    (match n_of_string (String.sub s 1 (String.length s - 1)) with N0 -> Z0 | Npos p -> Zneg p)
+  else (match n_of_string s with N0 -> Z0 | Npos p -> Zpos p)
+let string_of_z = function Z0 -> "0" | Zpos p -> string_of_n (Npos p) | Zneg p -> "-" ^ string_of_n (Npos p)
+let ity_of_string = function "bool" -> IBool | "i8" -> I8 | "u8" -> U8 | "i16" -> I16 | "u16" -> U16
+  | "i32" -> I32 | "u32" -> U32 | "i64" -> I64 | "u64" -> U64 | s -> failwith ("bad type " ^ s)
+let string_of_ity = function IBool -> "bool" | I8 -> "i8" | U8 -> "u8" | I16 -> "i16" | U16 -> "u16"
+  | I32 -> "i32" | U32 -> "u32" | I64 -> "i64" | U64 -> "u64"
+let unop_of = function "neg" -> Neg | "not" -> BitNot | "lnot" -> LogNot | "plus" -> Plus | s -> failwith ("bad unop " ^ s)
+let binop_of = function "add" -> Add | "sub" -> Sub | "mul" -> Mul | "div" -> Div | "mod" -> Mod | "and" -> BAnd
+  | "or" -> BOr | "xor" -> BXor | "shl" -> Shl | "shr" -> Shr | "eq" -> OEq | "ne" -> ONe | "lt" -> OLt | "le" -> OLe
+  | "gt" -> OGt | "ge" -> OGe | "land" -> LAnd | "lor" -> LOr | s -> failwith ("bad binop " ^ s)
+(* prefix syntax: L ty val | U op e | B op e e | C ty e | Q e e e | M e e *)
+let rec parse_expr toks = match toks with
+  | "L" :: t :: v :: r -> (Lit (ity_of_string t, z_of_string v), r)
+  | "U" :: o :: r -> let (a, r) = parse_expr r in (Un (unop_of o, a), r)
+  | "B" :: o :: r -> let (a, r) = parse_expr r in let (b, r) = parse_expr r in (Bin (binop_of o, a, b), r)
+  | "C" :: t :: r -> let (a, r) = parse_expr r in (Cast (ity_of_string t, a), r)
+  | "Q" :: r -> let (c, r) = parse_expr r in let (a, r) = parse_expr r in let (b, r) = parse_expr r in (Cond (c, a, b), r)
+  | "M" :: r -> let (a, r) = parse_expr r in let (b, r) = parse_expr r in (Comma (a, b), r)
+  | _ -> failwith "bad expression"
+(* per line: "<c11 type> <c11 value|UB> | <model type> <model value|err>" *)
+let cexpr_main () =
+  (try while true do
+    let line = String.trim (input_line stdin) in
+    let (e, _) = parse_expr (List.filter (fun s -> s <> "") (String.split_on_char ' ' line)) in
+    Printf.printf "%s %s | %s %s\n" (string_of_ity (type_of e))
+      (match eval e with Some v -> string_of_z v | None -> "UB")
+      (string_of_ity (m_type e))
+      (match m_eval e with Val v -> string_of_z v | ErrDivZero -> "err-div-zero" | ErrOverflow -> "err-overflow" | HostUB -> "host-ub")
+  done with End_of_file -> ())
+
 (* ---------------- layout / declspec ---------------- *)
 (* stdin: "S|U <packed 0|1> <align0> <size align bf named>*"  (bf = -1 for an ordinary member)
    stdout: "<size> <align> <off:bit>*" *)
@@ -172,6 +206,7 @@ let declspec_run_main () =
 
 let () =
   match Array.to_list Sys.argv with
+  | [_; "cexpr"] -> cexpr_main ()
   | [_; "layout"] -> layout_main ()
   | [_; "declspec-spec"] -> declspec_main ()
   | [_; "declspec-run"] -> declspec_run_main ()
